@@ -230,13 +230,82 @@ def check_annotationerror_passthrough(ctx, r):
 
 
 # ------------------------------------------------------------------------ C13.3
-def _msg_constants(handler, impl) -> str:
-    """All string constants that flow into messages of raises inside the handler."""
-    txt = []
-    for n in ast.walk(handler):
-        if isinstance(n, ast.Constant) and isinstance(n.value, str):
-            txt.append(n.value)
-    return " ".join(txt)
+def _msg_text(m, scope, e, depth=0, seen=None, within=None):
+    """Literal text of a message expression: string constants of f-strings / concatenations /
+    conditional expressions, local names followed to their definitions, internal helper calls
+    followed to what they return.  Returns (text, opaque, source_text); opaque = part of the text comes
+    from a call the rule cannot follow (holes of f-strings are values, not text, and ignored)."""
+    seen = seen if seen is not None else set()
+    if e is None or depth > 6:
+        return "", depth > 6, ""
+    if isinstance(e, ast.Constant):
+        return (e.value if isinstance(e.value, str) else ""), False, ""
+    if isinstance(e, ast.JoinedStr):
+        src = " ".join(norm(x.value) for x in e.values if isinstance(x, ast.FormattedValue))
+        return " ".join(x.value for x in e.values if isinstance(x, ast.Constant) and isinstance(x.value, str)), False, src
+    parts = []
+    if isinstance(e, ast.BinOp):
+        parts = [e.left, e.right]
+    elif isinstance(e, ast.IfExp):
+        parts = [e.body, e.orelse]
+    elif isinstance(e, (ast.Tuple, ast.List)):
+        parts = list(e.elts)
+    elif isinstance(e, ast.Name):
+        key = (getattr(scope, "qualname", "?"), e.id)
+        if key in seen:
+            return "", False, ""
+        seen.add(key)
+        defs = c05._assignments_to(scope, e.id) if isinstance(scope, FuncInfo) else []
+        aug = [n for n in walk_scope(scope.node) if isinstance(n, ast.AugAssign) and isinstance(n.target, ast.Name) and n.target.id == e.id] if isinstance(scope, FuncInfo) else []
+        if within is not None:
+            inside = {id(x) for x in ast.walk(within)}
+            d_in = [d for d in defs if id(d[0]) in inside]
+            if d_in:  # the handler builds its own message: definitions elsewhere belong to other handlers
+                defs = d_in
+                aug = [n for n in aug if id(n) in inside]
+        aug = [n.value for n in aug]
+        if not defs and not aug:
+            return "", (isinstance(scope, FuncInfo) and e.id not in scope.params), ""
+        parts = [d[1] for d in defs if d[1] is not None] + aug
+    elif isinstance(e, ast.Call):
+        if isinstance(e.func, ast.Attribute) and e.func.attr in ("join", "format"):
+            parts = [e.func.value] + list(e.args)
+        else:
+            t = m.resolve_call(scope, e)
+            if t.kind == "func" and t.target.module.short != "_storage":
+                txt, opq, src = [], False, [norm(t.target.node)]
+                for rt in walk_scope(t.target.node):
+                    if isinstance(rt, ast.Return):
+                        a_, b_, c_ = _msg_text(m, t.target, rt.value, depth + 1, seen)
+                        txt.append(a_)
+                        opq = opq or b_
+                        src.append(c_)
+                return " ".join(txt), opq, " ".join(src)
+            if t.kind == "func":
+                return "", False, norm(e)  # storage helpers (shape_str): values
+            return "", True, norm(e)
+    else:
+        return "", False, norm(e)
+    txt, opq, src = [], False, []
+    for p_ in parts:
+        a_, b_, c_ = _msg_text(m, scope, p_, depth + 1, seen, within)
+        txt.append(a_)
+        opq = opq or b_
+        src.append(c_)
+    return " ".join(txt), opq, " ".join(src)
+
+
+def _msg_constants(m, handler, impl):
+    """Text of the messages raised inside the handler; opacity; source text of the values used."""
+    txt, opaque, src = [], False, [norm(handler)]
+    for rs in ast.walk(handler):
+        if isinstance(rs, ast.Raise) and isinstance(rs.exc, ast.Call):
+            for a in rs.exc.args:
+                t_, o_, s_ = _msg_text(m, impl, a, within=handler)
+                txt.append(t_)
+                opaque = opaque or o_
+                src.append(s_)
+    return " ".join(txt), opaque, " ".join(src)
 
 
 def check_stage_wiring(ctx, r):
@@ -260,8 +329,11 @@ def check_stage_wiring(ctx, r):
                     cname = x.func.id if isinstance(x, ast.Call) and isinstance(x.func, ast.Name) else None
                     if cname != "TypeCheckError":
                         ctx.bad("C13.3", impl, rs, f"a violated annotation ({stage} check) raises `{norm(x)[:40]}`, not jaxtyping.TypeCheckError")
-                consts = _msg_constants(hd, impl).lower()
+                consts, opaque, region_txt = _msg_constants(m, hd, impl)
+                consts = consts.lower()
                 want, other = ("parameters of", "return value") if stage == "param" else ("return value", "checking the parameters")
+                if want not in consts and opaque:
+                    raise AnalysisError(f"C13.3: the message of the {stage}-check handler is built by code the rule cannot follow; the phrase '{want}' was not seen")
                 if want not in consts:
                     ctx.bad("C13.3", impl, hd, f"the message raised when the {'parameters' if stage == 'param' else 'return value'} fail does not say so "
                             f"(expected the phrase '{want}')", construct=f"{stage}-check handler message lacks '{want}'")
@@ -272,7 +344,7 @@ def check_stage_wiring(ctx, r):
                     ctx.ok("C13.3", impl.qualname, f"{stage}-check handler raises TypeCheckError with a message about the {'parameters' if stage == 'param' else 'return value'}")
                 # names the function: module + qualname holes
                 # names the function: somewhere in the handler fn's __qualname__ (or a helper applied to fn) is read
-                txt = norm(hd)
+                txt = region_txt
                 if "__qualname__" not in txt and not any(isinstance(c, ast.Call) and any(isinstance(a, ast.Name) and a.id == "fn" for a in c.args) for c in ast.walk(hd)):
                     ctx.bad("C13.3", impl, hd, "the error message does not name the function (fn.__qualname__ is never read in the handler)", construct=f"{stage}-check handler never reads the function's name")
     # TypeCheckError is a TypeError; AnnotationError is not
